@@ -173,7 +173,7 @@ func (g *Gen) supported() ref.Msg {
 var eventTypes = []string{"TOPOLOGY_CHANGE", "STATUS_CHANGE", "SCHEMA_CHANGE"}
 
 func (g *Gen) register() ref.Msg {
-	n := 1 + g.C.Choose(3)
+	n := 1 + g.C.Choose(4) // 4: one event type is listed twice (a [string list] may repeat itself)
 	m := &ref.Register{}
 	off := g.R.Intn(3)
 	for i := 0; i < n; i++ {
